@@ -547,7 +547,8 @@ where
         // check read timer
         if self.flags.contains(Flags::READ_TIMEOUT) {
             if let Some(params) = self.io.cfg().frame_read_rate() {
-                let total = self.read_remains - self.read_remains_prev;
+                // read_remains is reset when the timer is extended: no new data means 0
+                let total = self.read_remains.saturating_sub(self.read_remains_prev);
 
                 // read rate, start timer for next period
                 if total > params.rate {
